@@ -79,7 +79,9 @@ PROPS = {
                 "C19_hasher_writes_concatenate", "C19_cmp_eq_coherent", "C19_cmp_swap", "C19_lt_asym",
                 "C19_cmp_int_int", "C19_cmp_real_real", "C19_cmp_nil_as_zero", "C19_cmp_obj_as_len",
                 "C19_cmp_obj_obj", "C19_cmp_str_by_len", "C19_signed_zero_hash_refuted", "C19_nan_not_reflexive",
-                "C19_fn_not_reflexive", "C19_fn_key_eq_hash_refuted", "C19_eq_trans_refuted")] +
+                "C19_nan_key_eq_hash_refuted", "C19_eq_trans_nan_refuted", "C19_fn_not_reflexive_legacy",
+                "C19_fn_key_eq_hash_legacy_refuted", "C19_eq_trans_legacy_refuted", "C19_fn_key_repaired",
+                "C19_coherentb_correct")] +
             # statements about real numbers (Flocq B2R / Rcompare): the axioms of Coq's Reals library.
             [(t, REALS_AXIOMS) for t in (
                 "C19_cmp_real_real_numeric", "C19_eq_real_real_numeric", "C19_cmp_mixed_partial",
@@ -87,11 +89,12 @@ PROPS = {
         n_quick=1500, n_thorough=12000,
         gates=["pair", "triple", "eq.true.tables_built_differently", "table_table.permuted", "table.depth>=3",
                "mixed.int_real", "mixed.int_beyond_2^53", "zero_vs_negzero", "has_nan", "has_nan_key",
-               "has_function", "has_function_key", "hash0_remapped", "str_str.same_len_differ", "nil_vs_number",
+               "has_function", "has_function_key", "eq.true.with_function_key", "fn_fn.equal",
+               "closure.same_object", "closure.other_object_same_function", "hash0_remapped", "str_str.same_len_differ", "nil_vs_number",
                "object_vs_number", "triple.eq_eq", "cmp.none", "cmp.eq_but_not_equal"],
         rule="pairs (3/4) and triples (1/4) of values built through the host API of a fresh Vm (init_string, "
              "init_table + insert bottom-up, nested up to 3 deep, init_function / init_native_function / "
-             "init_closure), drawn from pools biased to boundaries (0, +-1, 2^53+-1, 2^53..2^62 +-3, i64 min/max, "
+             "init_closure; the same closure description within a case is the same object, closure objects are numbered in first-seen order in the terms), drawn from pools biased to boundaries (0, +-1, 2^53+-1, 2^53..2^62 +-3, i64 min/max, "
              "the i64 keys whose FNV hash is 0, +-0.0, NaNs, +-inf, subnormals, neighbours by one ulp, strings of "
              "equal length, multi-byte strings) and from variants of the first value (same content in other "
              "objects, other insertion order, one key/value changed, numeric twin under the coercions, other "
@@ -115,6 +118,7 @@ PROPS = {
             "table (a self-referencing table overflows the native stack: A-37, outside this property)",
             "native stack depth for deeply nested values is not modelled",
             "upvalue objects are not values a script can compare and are left out",
+            "a closure id in a case names one object (checked per case: code 3 otherwise); eq -> same hash is proved under that coherence",
             "the Equals/Less/LessOrEq cards are observed as the closures they run (a == b, a < b, a <= b), not "
             "through compiled scripts",
         ],
